@@ -14,6 +14,8 @@ RULE = ("cases = (estimator class, hyper-parameters, data set, match-tracking mo
         " [, host SimpleARTMAP + class labels, hyper-parameter re-assignments between partial_fit batches]); "
         "a case is non-trivial when at least one step visited >= 2 categories or met a veto; distinct by hash of "
         "(class, params, data, mode, eps, veto table [, host, labels, batching, re-assignment schedule]); "
+        "plus histories trained through fit_gif (the training loop that draws a frame after every sample) with a vetoing reset "
+        "function, every match-tracking mode and a non-zero epsilon, judged by the same per-step oracles; "
         "plus np.longdouble histories (Hypersphere / Ellipsoid / Gaussian / QuadraticNeuron, alone, as FusionART channels or as "
         "SimpleARTMAP A-side) with near-tie samples found by bisection on category_choice, judged at full precision")
 
@@ -383,6 +385,37 @@ def longdouble_histories(ctx):
         cov.case(("longdouble", tagc, repr(spec), X.tolist(), mode, eps, None if y is None else y.tolist()), nontrivial)
 
 
+def _fit_gif(m, X, reset, mode, eps):
+    """train through the public fit_gif: Agg backend, a tiny tick-less figure (the frames are not what C01 is about), a temporary
+    gif file, and the figure fit_gif opened is closed again"""
+    import os
+    import tempfile
+    import matplotlib
+    matplotlib.use("Agg")
+    import matplotlib.pyplot as plt
+    had = set(plt.get_fignums())
+    try:
+        rc = {"figure.figsize": (0.8, 0.6), "xtick.bottom": False, "xtick.labelbottom": False, "ytick.left": False,
+              "ytick.labelleft": False}
+        with tempfile.TemporaryDirectory() as tmp, plt.rc_context(rc):
+            # n_cluster_estimate only sizes the colour table (one scatter call per colour and frame); n samples make
+            # at most n categories
+            m.fit_gif(X, match_reset_func=reset, match_tracking=mode, epsilon=eps, filename=os.path.join(tmp, "c01.gif"),
+                      n_cluster_estimate=len(X))
+    finally:
+        for num in set(plt.get_fignums()) - had:
+            plt.close(num)
+
+
+def _has_matplotlib():
+    try:
+        import matplotlib  # noqa: F401
+        import PIL  # noqa: F401
+        return True
+    except Exception:
+        return False
+
+
 def run(ctx):
     longdouble_histories(ctx)
     cov = ctx.cov
@@ -396,9 +429,17 @@ def run(ctx):
     # set_params); every oracle / model line below then uses the configuration IN FORCE at that step.  About a third of
     # them run as the A-side of a SimpleARTMAP (the host's label map supplies the vetoes, `clf.module_a.rho = v`).
     Nre = ctx.scale(280, 2000)
-    for i in range(N + Nflag + Nre):
+    # histories trained through fit_gif (BaseART's training loop with a frame drawn after every sample, inherited by every
+    # estimator of the quantifier): always with a reset function that vetoes, a non-zero epsilon, 4-8 samples of 2
+    # features (a frame costs ~20 ms); class x mode rotate with the seed so that all 45 combinations are visited over
+    # the seeds.  Every per-step oracle / model line below applies unchanged: it is the property on the observed search
+    Ngif = ctx.scale(27, 180) if _has_matplotlib() else 0
+    if not Ngif:
+        cov.hit("fit_gif:matplotlib-not-available")
+    for i in range(N + Nflag + Nre + Ngif):
         r = gen.rng_for(ctx.seed, "C01", i)
-        reassign = i >= N + Nflag
+        gif = i >= N + Nflag + Nre
+        reassign = (i >= N + Nflag) and not gif
         cls = classes[i % len(classes)] if i < N else "FusionART"
         d = r.randint(1, 4)
         n = r.randint(1, nmax)
@@ -410,6 +451,13 @@ def run(ctx):
         eps = r.choice([0.0, 2.0 ** -20, 2.0 ** -10, 1e-10, 0.125])
         has_reset = r.random() < 0.7
         floats = r.random() < 0.3
+        if gif:
+            j = ctx.seed * Ngif + (i - (N + Nflag + Nre))
+            cls = classes[j % len(classes)]
+            mode = MODES[j % 5]
+            d, n = 2, r.randint(4, 8)
+            eps = r.choice([2.0 ** -20, 2.0 ** -10, 1e-10, 0.125, 0.25, 0.45])
+            has_reset = True
         spec, chans, ds = build_est(r, cls, d)
         if cls == "FusionART":
             X = np.hstack([specs.elem_data(r, c, n, dd, floats=floats) for c, dd in zip(chans, ds)])
@@ -425,7 +473,9 @@ def run(ctx):
             X = X.astype(np.float32)
             cov.hit("float32-input")
         vt = gen.veto_table(r, n, n + 1)
-        if cls == "FusionART" and len(chans) >= 2 and (i >= N or (i // len(classes)) % 2 == 0):
+        if gif and not any(any(row) for row in vt):
+            vt = [[r.random() < 0.5 for _ in range(n + 1)] for _ in range(n)]
+        if cls == "FusionART" and len(chans) >= 2 and ((i >= N and not gif) or (i // len(classes)) % 2 == 0):
             # a crisp "flag" channel with vigilance 0: match values are exactly 0 and still pass `0 >= 0`, so a
             # veto has to track that channel's threshold up from 0 (only MT+ with epsilon > 0 then decides later
             # candidates differently)
@@ -465,8 +515,10 @@ def run(ctx):
                     cur.update(sched[bi][1])
                 conf_at += [cur] * sz
         sched_rep = {str(bi): {"route": rt, "values": ch} for bi, (rt, ch) in sched.items()}
-        tagc = f"SimpleARTMAP({cls})" if host else cls
+        tagc = f"SimpleARTMAP({cls})" if host else (f"{cls}.fit_gif" if gif else cls)
         key = (cls, spec, X.tolist(), mode, eps, vt if has_reset else None)
+        if gif:
+            key = key + ("fit_gif",)
         if reassign:
             key = key + (host, None if y is None else y.tolist(), tuple(parts_re), repr(sorted(sched_rep.items())))
         try:
@@ -536,6 +588,9 @@ def run(ctx):
         parts = gen.compositions(r, n) if not reassign else parts_re
         rep_re = {"parts": parts, "reassigned-before-batch": sched_rep, "host": "SimpleARTMAP" if host else None,
                   "y": y} if reassign else {}
+        if gif:
+            rep_re = {"trained-through": "fit_gif(X, match_reset_func=<veto table>, match_tracking=mode, epsilon=eps, "
+                                         "filename=<temporary file>) with the matplotlib Agg backend"}
         try:
             with quiet():
                 if reassign:
@@ -555,18 +610,37 @@ def run(ctx):
                             m_host.partial_fit(B, y[a0:a0 + len(B)], match_tracking=mode, epsilon=eps)
                         else:
                             m.partial_fit(B, match_reset_func=reset, match_tracking=mode, epsilon=eps)
+                elif gif:
+                    _fit_gif(m, X, reset, mode, eps)
+                    cov.hit(f"fit_gif:trained:{cls}")
+                    cov.hit(f"fit_gif:mode:{mode}:epsilon>0:reset-function-vetoes")
                 elif len(parts) == 1 and r.random() < 0.5:
                     m.fit(X, match_reset_func=reset, match_tracking=mode, epsilon=eps)
                 else:
                     for B in gen.split(X, parts):
                         m.partial_fit(B, match_reset_func=reset, match_tracking=mode, epsilon=eps)
         except Exception as e:
-            sig = f"{cls}.fit:{exc_enum(e)}"
-            ctx.issue("violation", sig, f"training raised {e!r} on validated data (mode {mode}, reset={has_reset})",
-                      {"spec": spec, "X": X, "mode": mode, "eps": eps, "veto": vt if has_reset and not host else None, "parts": parts,
-                       **rep_re})
-            cov.case(key, False)
-            continue
+            if gif and rec.steps and rec.steps[-1].exc is None and rec.steps[-1].ret is not None:
+                # every search that was started has returned: the exception comes from drawing the frame (visualize /
+                # the gif writer), which C01 does not constrain; the searches observed so far are judged below
+                cov.hit(f"fit_gif:frame-drawing-raised-after-a-completed-search:{cls}:{exc_enum(e)}")
+            else:
+                sig = f"{cls}.{'fit_gif' if gif else 'fit'}:{exc_enum(e)}"
+                ctx.issue("violation", sig, f"training raised {e!r} on validated data (mode {mode}, reset={has_reset})",
+                          {"spec": spec, "X": X, "mode": mode, "eps": eps, "veto": vt if has_reset and not host else None, "parts": parts,
+                           **rep_re})
+                cov.case(key, False)
+                continue
+        if gif and len(rec.steps) == n:
+            # the assignment fit_gif publishes (labels_) is the outcome of each sample's search
+            rets = [st_.ret for st_ in rec.steps]
+            have = getattr(m, "labels_", None)
+            if have is None or [int(v) for v in np.asarray(have).ravel()] != rets:
+                ctx.issue("violation", f"{tagc}:labels_-differ-from-the-search-outcomes",
+                          f"labels_ after fit_gif is {None if have is None else np.asarray(have).tolist()}, the searches returned {rets} "
+                          f"(mode {mode}, eps {eps})",
+                          {"spec": spec, "X": X, "mode": mode, "eps": eps, "veto": vt, **rep_re})
+            cov.hit("oracle:fit_gif-labels_-are-the-search-outcomes")
         nontrivial = False
         if host:
             # the veto pattern of this history: category c is vetoed for sample si when the host's map (before the
@@ -576,7 +650,7 @@ def run(ctx):
         # ---- oracle: the hyper-parameters of the estimator are, before and after every sample's search, the ones
         #      configured (constructor, then the latest assignment): whatever a search does to the vigilance lives
         #      "only for the rest of that sample's search", and a re-assigned value stays in force
-        if cls != "FusionART" and len(pframes) == len(conf_at):
+        if cls != "FusionART" and (len(pframes) == len(conf_at) or (gif and len(pframes) <= len(conf_at))):
             for si, (pb, pa) in enumerate(pframes):
                 bad_b = _params_differ(pb, conf_at[si])
                 bad_a = _params_differ(pa, conf_at[si]) if pa is not None else []
@@ -604,16 +678,16 @@ def run(ctx):
             if c < nb:
                 if len(after) != nb:
                     ctx.issue("violation", f"{cls}:frame", f"step {si}: resonance with {c} but |W| {nb}->{len(after)}",
-                              {"spec": spec, "X": X, "step": si})
+                              {"spec": spec, "X": X, "step": si, **rep_re})
                 changed = [k for k in range(nb) if not np.array_equal(before[k], after[k], equal_nan=True)]
                 if any(k != c for k in changed):
                     ctx.issue("violation", f"{cls}:frame", f"step {si}: winner {c} but weights {changed} changed",
-                              {"spec": spec, "X": X, "step": si, "mode": mode})
+                              {"spec": spec, "X": X, "step": si, "mode": mode, **rep_re})
             else:
                 if c != nb or len(after) != nb + 1 or any(
                         not np.array_equal(before[k], after[k], equal_nan=True) for k in range(nb)):
                     ctx.issue("violation", f"{cls}:frame", f"step {si}: new category label {c}, |W| {nb}->{len(after)}",
-                              {"spec": spec, "X": X, "step": si, "mode": mode})
+                              {"spec": spec, "X": X, "step": si, "mode": mode, **rep_re})
                 else:
                     with quiet():
                         try:
@@ -621,7 +695,7 @@ def run(ctx):
                             if not np.array_equal(wn, after[-1], equal_nan=True):
                                 ctx.issue("violation", f"{cls}:new-not-from-sample",
                                           f"step {si}: appended weight differs from new_weight(x)",
-                                          {"spec": spec, "X": X, "step": si})
+                                          {"spec": spec, "X": X, "step": si, **rep_re})
                         except Exception:
                             pass
         # ---- oracle: without a reset function the winner is the oldest category of maximal activation among
@@ -749,7 +823,7 @@ def run(ctx):
                       f"case {i} step {si}: the estimator's vigilance tests along the search answered {imp_m}; the recorded match "
                       f"values tested against the configured / tracked thresholds give {mod_m} (mode {mode}, eps {eps})", rep)
             continue
-        if cls != "FusionART":
+        if cls.split(".")[0] != "FusionART":
             imp_th = [[f2hex(rho_)] for (_, _, rho_) in st.Mseq]
             if imp_th != mod_th:
                 # the thresholds are the estimator's own (seen by its vigilance test); the rule fixes them as a function of
@@ -767,6 +841,10 @@ def run(ctx):
                 continue
             if any((not a) and mb for (_, a, _), mb in zip(st.resets, imp_m)):
                 cov.hit(f"veto-then-track:{mode}")
+                if cls.endswith(".fit_gif"):
+                    k1 = next(k for k, ((_, a, _), mb) in enumerate(zip(st.resets, imp_m)) if (not a) and mb)
+                    cov.hit(f"fit_gif:veto-then-track:{mode}" + (":later-candidate-tested-against-the-tracked-vigilance"
+                                                                 if len(imp_m) > k1 + 1 else ""))
         live = [x for x in step_table(st, mode, has_reset)[0] if x == x]
         if len(set(live)) < len(live):
             cov.hit("exact-tie")
